@@ -235,7 +235,7 @@ func main() {
 			if !strings.Contains(c.Full, os.Args[2]) || c.Assumed {
 				continue
 			}
-			fn := g.fnByName[c.Full]
+			fn := g.fnByName[c.FnName()]
 			if fn == nil {
 				fmt.Printf("; no function %s\n", c.Full)
 				continue
@@ -273,7 +273,7 @@ func main() {
 			if c.Assumed {
 				st = "assumed"
 			}
-			if g.fnByName[c.Full] == nil && !strings.Contains(c.Key, "iface ") {
+			if g.fnByName[c.FnName()] == nil && !strings.Contains(c.Key, "iface ") {
 				st += " (NO SUCH FUNCTION)"
 			}
 			fmt.Printf("%-70s %-10s %v\n", c.Full, st, c.Props)
